@@ -59,7 +59,12 @@ func runCheck(id, tier string, only int) int {
 		if only >= 0 {
 			rep.MinNontrivial = 0
 		}
-		if e, ok := p.(interface{ Extra(tier string) map[string]interface{} }); ok {
+		if c, ok := p.(interface{ Classify(o *Outcome) }); ok {
+			rep.Classify = c.Classify
+		}
+		if e, ok := p.(interface {
+			Extra(tier string) map[string]interface{}
+		}); ok {
 			for k, v := range e.Extra(tier) {
 				rep.Extra[k] = v
 			}
